@@ -96,31 +96,39 @@ def r2(chk, ctx):
         return
     var = vn.node.args.args[1].arg
 
+    def is_report(s):
+        return any(isinstance(c, ast.Call) and isinstance(c.func, ast.Attribute) and c.func.attr == "append" and "problems" in norm(c.func.value) for c in ast.walk(s))
+
+    def run_block(stmts, k, reported):
+        """-> (set of 'reported' flags at returns reached, set of 'reported' flags falling through)"""
+        rets, flows = set(), {reported}
+        for s in stmts:
+            if not flows:
+                break
+            nxt = set()
+            for rep in flows:
+                if isinstance(s, ast.If):
+                    t = kind_truth(s.test, var, k)
+                    for arm, take in ((s.body, t is not False), (s.orelse, t is not True)):
+                        if take:
+                            r2, f2 = run_block(arm, k, rep)
+                            rets |= r2
+                            nxt |= f2
+                elif isinstance(s, ast.Return):
+                    rets.add(rep)
+                else:
+                    nxt.add(rep or is_report(s))
+            flows = nxt
+        return rets, flows
+
     def silent_kinds(ifnode):
-        """kinds for which control reaches a `return` in this if-tree without a problems.append before it"""
         out = set()
         for k in KINDS:
-            out |= _walk_if(ifnode, var, k)
+            rets, _ = run_block([ifnode], k, False)
+            if False in rets:
+                out.add(k)
         return out
 
-    def _walk_if(ifnode, var, k):
-        t = kind_truth(ifnode.test, var, k)
-        res = set()
-        arms = []
-        if t is not False:
-            arms.append(ifnode.body)
-        if t is not True:
-            arms.append(ifnode.orelse)
-        for body in arms:
-            reported = False
-            for s in body:
-                if isinstance(s, ast.If):
-                    res |= _walk_if(s, var, k)
-                if any(isinstance(c, ast.Call) and isinstance(c.func, ast.Attribute) and c.func.attr == "append" and "problems" in norm(c.func.value) for c in ast.walk(s)) and not isinstance(s, ast.If):
-                    reported = True
-                if isinstance(s, ast.Return) and not reported:
-                    res.add(k)
-        return res
     silent = silent_kinds(first)
     bad = sorted(silent - {"null"})
     chk.ob("C18.R2", "validate_node is silent for JSON null only (12 kinds evaluated)", not bad, "silent for %s" % sorted(silent),
@@ -317,7 +325,32 @@ def _has_isinstance(test, v, need):
     return False
 
 
+def r6(chk, ctx):
+    """state-name uniqueness: names of a States object are registered before its children are descended into"""
+    sl = ctx.mod("statelint")
+    f = sl.func("StateNode.check")
+    g = CFG(f.node)
+    regs = [n for n in body_nodes(f) if isinstance(n, ast.Assign) and any(isinstance(t, ast.Subscript) and norm(t.value) == "self.all_state_names" for t in n.targets)]
+    tests = [n for n in body_nodes(f) if isinstance(n, ast.Compare) and len(n.ops) == 1 and isinstance(n.ops[0], ast.In) and norm(n.comparators[0]) == "self.all_state_names"]
+    recs = [n for n in body_nodes(f) if isinstance(n, ast.Call) and callname(n) == "self.check"]
+    chk.ob("C18.R6", "StateNode.check registers state names and tests them for duplicates", bool(regs) and bool(tests) and bool(recs), "",
+           key="StateNode.check | uniqueness bookkeeping incomplete", where=f.where(), message="state names must be unique across the whole machine, nested machines included")
+    for r in regs:
+        rn = g.node_of(r)
+        for c in recs:
+            cn = g.containing_stmt_node(c, sl)
+            ok = cn in g.reachable_from(rn) and rn not in g.reachable_from(cn)
+            chk.ob("C18.R6", "registration of a level's state names precedes the descent into its children", ok, "",
+                   key="StateNode.check | state names registered after (or not before) the recursive descent", where=sl.line(r),
+                   message="a nested state that reuses the name of an enclosing-level state is then not reported, and the engine fails such an execution as an illegal (non-unique) state machine")
+    for r in regs:
+        gi = enclosing_ifs(sl, r, f.node)
+        ok = any(arm == "orelse" and any(x is t for t in tests for x in ast.walk(i.test)) for i, arm in gi)
+        chk.ob("C18.R6", "a name is registered exactly when it was not already known", ok, "", key="StateNode.check | registration not in the else-arm of the duplicate test", where=sl.line(r), message="")
+
+
 def run(chk, ctx):
+    r6(chk, ctx)
     r1(chk, ctx)
     r2(chk, ctx)
     r3(chk, ctx)
